@@ -1,4 +1,4 @@
-import TracklibVerif.Lemmas.FeaturesResult
+import TracklibVerif.Lemmas.FeaturesInit
 /-! # C01 — the feature table stays aligned with the observations under any operation history
 
 Property theorems only. `St` is the model of the code (`Model/Features.lean`: the dict name → column index and
@@ -6,9 +6,11 @@ the per-observation `features` lists, every operation with the partial effects P
 `ATab` is the specification: an association list name ↦ column without any index. `Inv n st` says that `st`
 is aligned (the dict enumerates its distinct names, every observation carries exactly one value per listed
 name, `n` observations); `abs` forgets the indices. `Op` covers create / update / remove / bracket
-assignment / setObs / addAnalyticalFeature / unary, binary, scalar void operators / a non-void aggregate /
-`operate(str)` on an arbitrary RPN token list over `= + - *`. All statements are for every scalar type `V`
-and every interpretation `o : Ops V` of the arithmetic (the driver runs them at `Float`). -/
+assignment / setObs / addAnalyticalFeature / unary, binary, scalar void operators of every family (those whose
+arithmetic raises mid-way included) / value-returning aggregates / `computeAbsCurv`, `estimate_speed`,
+`segmentation` / `operate(str)` on an arbitrary RPN token list over `= + - * / ^ % < > & $ @`. All statements
+are for every scalar type `V`, every feature name (any string) and every interpretation `o : Ops V` of the
+arithmetic, exceptions included (the driver runs them at `Float`). -/
 set_option linter.unusedSectionVars false
 namespace TV.C01
 open TV.Features
@@ -82,23 +84,61 @@ theorem run_refines (o : Ops V) (ops : List (Op V)) (st : St V) (h : Inv n st)
     rw [h2]
     exact this
 
+/-- the empty string is not a `#` name -/
+theorem isHash_empty : isHash "" = false := by decide +kernel
+
+/-- a name that is neither listed before `operate(str)` nor a token of the expression is not listed after the
+evaluation (before the purge) either — used for the empty name -/
+theorem evaluate_no_new_name (o : Ops V) (rpn : List String) (st : St V) (h : Inv n st) (m : String)
+    (hm : m ∉ names st) (hrpn : m ∉ rpn) (hh : isHash m = false) : m ∉ names (evaluate o rpn st).2 := by
+  have hev := sim_evaluate (n := n) o rpn st h
+  have hsame := (frame_evaluate o rpn (abs st)).1
+  rw [hev.2.1] at hsame
+  simp only at hsame
+  have hT : ¬ exprT rpn m := by
+    intro ht
+    rcases ht with ⟨h1, _⟩ | h2
+    · exact hrpn h1
+    · rw [hh] at h2; cases h2
+  have hl := hsame.cols m hT
+  intro hmem
+  have h1 : (lookup (abs (evaluate o rpn st).2).cols m).isSome = true := by
+    apply lookup_isSome_of_mem
+    have := names_abs (evaluate o rpn st).2
+    unfold anames at this
+    rw [this]; exact hmem
+  rw [hl, abs_lookup, find_none_of_not_mem _ _ hm] at h1
+  cases h1
+
 /-- T4: after `operate(str)` no listed name starts with `#`, for every RPN token list, whether the
-evaluation returned or raised (the purge sits in a `finally`), including `#` names listed before the call. -/
-theorem no_temporaries (o : Ops V) (rpn : List String) (st : St V) (h : Inv n st) :
+evaluation returned or raised (the purge sits in a `finally`), including `#` names listed before the call —
+provided the empty string is neither a listed feature name nor a token: Python tests `af[0] == "#"`, which
+raises IndexError on the empty name and stops the purge (see `empty_name_stops_purge` below). -/
+theorem no_temporaries (o : Ops V) (rpn : List String) (st : St V) (h : Inv n st)
+    (hne : "" ∉ names st) (hrpn : "" ∉ rpn) :
     ∀ nm ∈ names (step o (.expr rpn) st).2, isHash nm = false := by
   have hsim := sim_step (n := n) o (.expr rpn) trivial st h
   -- the state after evaluation (before the purge) is aligned, hence has distinct names
   have hev := sim_evaluate (n := n) o rpn st h
-  have hst : (step o (Op.expr rpn) st).2 = (purge (σ := St V) (evaluate o rpn st).2).2 := tryFinally_snd _ _ _
-  have habs : abs (step o (Op.expr rpn) st).2 = (purge (σ := ATab V) (abs (evaluate o rpn st).2)).2 := by
+  have hst : (step o (Op.expr rpn) st).2 = (purgeE (σ := St V) (evaluate o rpn st).2).2 := tryFinally_snd _ _ _
+  have habs : abs (step o (Op.expr rpn) st).2 = (purgeE (σ := ATab V) (abs (evaluate o rpn st).2)).2 := by
     have e1 := hsim.2.1
     have e2 : (step (σ := ATab V) o (Op.expr rpn) (abs st)).2
-        = (purge (σ := ATab V) (evaluate (σ := ATab V) o rpn (abs st)).2).2 := tryFinally_snd _ _ _
+        = (purgeE (σ := ATab V) (evaluate (σ := ATab V) o rpn (abs st)).2).2 := tryFinally_snd _ _ _
     rw [e1] at e2
     simp only at e2
     rw [e2, hev.2.1]
   have hnd : (anames (abs (evaluate o rpn st).2)).Nodup := by rw [names_abs]; exact hev.1.nodup
-  rw [purge_spec _ hnd] at habs
+  have hnempty : ∀ x ∈ anames (abs (evaluate o rpn st).2), x.isEmpty = false := by
+    intro x hx
+    rw [names_abs] at hx
+    cases hxe : x.isEmpty with
+    | false => rfl
+    | true =>
+      have : x = "" := String.isEmpty_iff.mp hxe
+      subst this
+      exact absurd hx (evaluate_no_new_name o rpn st h "" hne hrpn isHash_empty)
+  rw [purge_spec _ hnd hnempty] at habs
   intro nm hnm
   rw [← names_abs, habs] at hnm
   simp only [anames, List.mem_map, List.mem_filter] at hnm
@@ -331,12 +371,115 @@ theorem unaryVoid_read_back (o : Ops V) (k : UOp) (inp : String) (out : Option S
   obtain ⟨hr, hl⟩ := unaryVoid_result o k inp _ _ _ _ (ainv_abs h) h1
   exact read_of_lookup o _ (inv_step o (.unaryVoid k inp out) st h trivial) _ _ hr hl
 
+/-- T6d: the same for every APPLY-based unary void operator (RECTIFIER, SQRT, DIODE, SIGN, EXP, COS, SIN, TAN, INVERSER … —
+any cell function `f`, which may raise mid-way: then nothing is returned and the statement is about returning calls). -/
+theorem applyVoid_read_back (o : Ops V) (f : V → Except Err V) (inp out : String) (st : St V)
+    (h : Inv n st) (temp : List V) (hres : (applyVoid o f inp out st).1 = .ok temp) :
+    read o (applyVoid o f inp out st).2 out = .ok temp := by
+  obtain ⟨hi, href, _⟩ := sim_applyVoid (n := n) o f inp out st h
+  rw [hres] at href
+  obtain ⟨hr, hl⟩ := applyVoid_result o f inp out _ _ _ (ainv_abs h) href
+  exact read_of_lookup o _ hi _ _ hr hl
+
+/-- a successful `m >>= f` on the code's table: `m` succeeded and the whole is `f` run on `m`'s result and state -/
+theorem bind_fst_ok {σ α β : Type} {m : M σ α} {f : α → M σ β} {s : σ} {x : β}
+    (h : ((m >>= f) s).1 = .ok x) : ∃ y, (m s).1 = .ok y ∧ (m >>= f) s = f y (m s).2 := by
+  have h' : (M.bind m f s).1 = .ok x := h
+  show ∃ y, (m s).1 = .ok y ∧ M.bind m f s = f y (m s).2
+  unfold M.bind at h' ⊢
+  cases hm : m s with
+  | mk r s1 =>
+    rw [hm] at h'
+    cases r with
+    | error e => cases h'
+    | ok y => exact ⟨y, rfl, rfl⟩
+
+theorem scalarVoid_fn_read_back (o : Ops V) (k : SOp) (inp : String) (arg : V) (out : String) (st : St V)
+    (h : Inv n st) (temp : List V) (hres : (scalarVoid o k inp arg out st).1 = .ok temp) :
+    Features.read o (scalarVoid o k inp arg out st).2 out = .ok temp := by
+  obtain ⟨hi, href, _⟩ := sim_scalarVoid (n := n) o k inp arg out st h
+  rw [hres] at href
+  obtain ⟨hr, hl⟩ := scalarVoid_result o k inp arg out _ _ _ (ainv_abs h) href
+  exact read_of_lookup o _ hi _ _ hr hl
+
+theorem shiftCircular_fn_read_back (o : Ops V) (inp : String) (arg : V) (out : String) (st : St V)
+    (h : Inv n st) (temp : List V) (hres : (shiftCircular o inp arg out st).1 = .ok temp) :
+    Features.read o (shiftCircular o inp arg out st).2 out = .ok temp := by
+  obtain ⟨hi, href, _⟩ := sim_shiftCircular (n := n) o inp arg out st h
+  rw [hres] at href
+  obtain ⟨hr, hl⟩ := shiftCircular_result o inp arg out _ _ _ (ainv_abs h) href
+  exact read_of_lookup o _ hi _ _ hr hl
+
+/-- T6e: the same for SCALAR_DIVIDER, SCALAR_REV_DIVIDER (two operators in a row, the first of which may raise mid-way),
+SHIFT_CIRCULAR, SHIFT_CIRCULAR_REV and the twelve plain scalar operators (`scalarKind`): when the call returns `temp`,
+the output feature reads `temp`. -/
+theorem scalarKind_read_back (o : Ops V) (k : SKind) (inp : String) (arg : V) (out : String) (st : St V)
+    (h : Inv n st) (temp : List V) (hres : (scalarKind o k inp arg out st).1 = .ok temp) :
+    Features.read o (scalarKind o k inp arg out st).2 out = .ok temp := by
+  cases k with
+  | plain s => exact scalarVoid_fn_read_back o s inp arg out st h temp hres
+  | divider =>
+    unfold scalarKind scalarDivider at hres ⊢
+    by_cases hz : o.eqZero arg = true
+    · simp [hz, M.throw] at hres
+    · simp only [hz, Bool.false_eq_true, if_false] at hres ⊢
+      exact scalarVoid_fn_read_back o _ inp _ out st h temp hres
+  | revDivider =>
+    have e : scalarKind o .revDivider inp arg out st
+        = ((applyVoid o (inverse o) inp out >>= fun _ => scalarVoid o .multiplier out arg out) st) := rfl
+    rw [e] at hres ⊢
+    obtain ⟨y, _, h2⟩ := bind_fst_ok hres
+    rw [h2] at hres ⊢
+    exact scalarVoid_fn_read_back o _ out arg out _ (sim_applyVoid (n := n) o (inverse o) inp out st h).1 temp hres
+  | shift => exact shiftCircular_fn_read_back o inp arg out st h temp hres
+  | shiftRev => exact shiftCircular_fn_read_back o inp _ out st h temp hres
+
+/-- T5 for the value-returning aggregates SUM AVG MIN MAX ARGMIN ARGMAX (`aggFn`, any aggregate function, raising or
+not): the table is left exactly as it was. -/
+theorem agg_keeps_table (o : Ops V) (f inp : String) (st : St V) (h : Inv n st) (m : String) :
+    read o (step o (.aggFn f inp) st).2 m = read o st m :=
+  (step_frame o (.aggFn f inp) st h trivial m (fun hf => hf)).1
+
+/-- T7: every read path returns the same values. On an aligned table, whatever `getAnalyticalFeature(m)` returns as
+column — for a feature name (any string: `X`, `E`, `N`, `idx2`, the empty string …), a coordinate `x y z`, `t` or
+`idx` — `getObsAnalyticalFeature(m, i)` (= `track[m, i]`, and the read every operator and `setX/Y/ZFromAnalyticalFeature`
+makes) returns its `i`-th element and changes nothing. -/
+theorem cell_read_agrees (o : Ops V) (st : St V) (h : Inv n st) (m : String) (col : List V)
+    (hc : read o st m = .ok col) (i : Nat) (hi : i < col.length) :
+    (getObsC o m i st).1 = .ok (col[i]'hi) ∧ (getObsC o m i st).2 = st := by
+  refine ⟨?_, getObsC_state o m i st⟩
+  have hs := (sim_getObs (n := n) o m i st h).2.1
+  have ha : (getA o m (abs st)).1 = .ok col := by
+    have := read_abs o h m
+    unfold Features.read Features.aread at this
+    rw [← this]; exact hc
+  rw [acell_agrees o (abs st) m col ha i hi] at hs
+  exact (congrArg Prod.fst hs).symm
+
+/-- T8: a track that is handed a table — what `copy()`, `extract`, a slice and `+` build (`__transmitAF` copies the
+dict, the observations keep their `features`) — is aligned and carries exactly that table, provided the names are
+distinct and every column has one value per observation; every theorem above then applies to the histories that start
+from it. -/
+theorem carried_table_aligned (cols : List (String × List V)) (xs ys zs ts : List V)
+    (hnd : (cols.map Prod.fst).Nodup) (hlen : ∀ p ∈ cols, p.2.length = xs.length)
+    (hy : ys.length = xs.length) (hz : zs.length = xs.length) (ht : ts.length = xs.length) :
+    Inv xs.length (mkSt cols xs ys zs ts) ∧
+    abs (mkSt cols xs ys zs ts) = { cols := cols, xs := xs, ys := ys, zs := zs, ts := ts } :=
+  ⟨inv_mkSt cols xs ys zs ts hnd hy hz ht, abs_mkSt cols xs ys zs ts hlen⟩
+
 /-! ## Non-vacuity: an explicit history with delete-then-recreate, over the integers -/
 
 /-- integer arithmetic, `-1000` standing for NaN; only the literals `2` and `3` parse -/
 def iops : Ops Int :=
   { zero := 0, nan := -1000, add := (· + ·), sub := (· - ·), mul := (· * ·), ofNat := Int.ofNat,
-    isNaN := fun v => v == -1000, parse := fun s => if s == "2" then some 2 else if s == "3" then some 3 else none }
+    isNaN := fun v => v == -1000, parse := fun s => if s == "2" then some 2 else if s == "3" then some 3 else none,
+    one := 1, divide := (· / ·), eqZero := fun v => v == 0,
+    pow := fun a b => if b < 0 then (if a == 0 then .error .value else .ok 0) else .ok (a ^ b.toNat),
+    mod := fun a b => if b == 0 then .error .value else .ok (a % b),
+    lt := fun a b => decide (a < b),
+    fn := fun f v => if f == "SQRT" && v < 0 then .error .value else .ok (if f == "ABS" then Int.ofNat v.natAbs else v),
+    agg := fun f l => if f == "AVG" && l.isEmpty then .error .value else .ok (l.foldl (· + ·) 0),
+    shiftIdx := fun k i m => if m == 0 then .error .value else .ok ((((i : Int) - k) % (m : Int)).toNat) }
 
 def t0 : St Int := fresh [10, 11, 12] [20, 22, 24] [30, 33, 36] [1000, 1001, 1002]
 
@@ -371,5 +514,34 @@ example : ((trace iops [.create "a" (.scalar 5), .expr ["y", "3", "="]] (abs t0)
 example : ((trace iops [.expr ["x", "2", "3", "*", "="], .expr ["t", "3", "="]] t0).map
     (fun r => (r.1.toOption.isSome, r.2.xs, r.2.ts))) =
     [(true, [6, 6, 6], [1000, 1001, 1002]), (false, [6, 6, 6], [1000, 1001, 1002])] := by decide +kernel
+
+/-- an operator that raises mid-way: `c = 2/a` with a zero in `a`. INVERSER has already created its output `#0` when
+`1.0 / 0` raises at the second observation; the call raises, the temporary is purged, `c` is not created, `a` and
+the coordinates are as before, every observation carries one value -/
+example : ((trace iops [.create "a" (.list [1, 0, 3]), .expr ["c", "2", "a", "/", "="]] t0).map
+    (fun r => (r.1.toOption.isSome, r.2.dico, r.2.rows, r.2.xs))) =
+    [(true, [("a", 0)], [[1], [0], [3]], [10, 11, 12]), (false, [("a", 0)], [[1], [0], [3]], [10, 11, 12])] := by decide +kernel
+/-- the same expression when no value is zero: `c` reads `(1 / a) * 2` as SCALAR_REV_DIVIDER computes it (integer
+division here), no temporary is left -/
+example : ((runOps iops [.create "a" (.list [1, 2, 3]), .expr ["c", "2", "a", "/", "="]] t0).dico,
+    (runOps iops [.create "a" (.list [1, 2, 3]), .expr ["c", "2", "a", "/", "="]] t0).rows) =
+    ([("a", 0), ("c", 1)], [[1, (1 / 1) * 2], [2, (1 / 2) * 2], [3, (1 / 3) * 2]]) := by decide +kernel
+/-- operators `% ^ <`, a shift and a function call in one expression: `c = ABS{a} % 3 + (a ^ 2) + (a < 2) + (a >> 2)` -/
+example : (runOps iops [.create "a" (.list [1, 2, 3]),
+    .expr ["c", "ABS", "a", "@", "3", "%", "a", "2", "^", "+", "a", "2", "<", "+", "a", "2", "&", "+", "="]] t0).rows =
+    [[1, 1 + 1 + 1 + 2], [2, 2 + 4 + 0 + 3], [3, 0 + 9 + 0 + 1]] := by decide +kernel
+/-- `empty_name_stops_purge`: with a feature whose name is the empty string, the purge of `operate(str)` raises
+(`af[0]` on `""`) before it reaches the temporary: `#0` stays listed. This is the behaviour of the code (finding
+`empty-feature-name`); `no_temporaries` excludes it by hypothesis -/
+example : ((trace iops [.create "" (.scalar 5), .create "a" (.scalar 1), .expr ["c", "a", "2", "+", "="]] t0).map
+    (fun r => (r.1.toOption.isSome, r.2.dico.map Prod.fst))) =
+    [(true, [""]), (true, ["", "a"]), (false, ["", "a", "#0", "c"])] := by decide +kernel
+/-- a carried table: the track built by `extract` / `copy` / `+` from columns `a`, `N` is aligned -/
+example : Inv 2 (mkSt [("a", [1, 2]), ("N", [3, 4])] [10, 11] [20, 22] [30, 33] [1000, 1001] : St Int) :=
+  (carried_table_aligned [("a", [1, 2]), ("N", [3, 4])] [10, 11] [20, 22] [30, 33] [1000, 1001]
+    (by decide) (by decide) rfl rfl rfl).1
+/-- a feature named `N` is read through every path as what was written under it, not as a coordinate -/
+example : (getObsC iops "N" 1 (mkSt [("a", [1, 2]), ("N", [3, 4])] [10, 11] [20, 22] [30, 33] [1000, 1001] : St Int)).1.toOption
+    = some 4 := by decide +kernel
 
 end TV.C01
